@@ -42,6 +42,9 @@ type Obligation struct {
 	Witness []string `json:"witness,omitempty"`
 	Known   bool     `json:"known_finding,omitempty"`
 	st      Status
+	// imported: the verdict was taken over from a normalised view under a key the
+	// tree as written never got to; a less normalised view does not overturn it
+	imported bool
 }
 
 // FullKey is "<rule>/<key>".
@@ -98,7 +101,8 @@ func (c *Ctx) AdoptPasses(alt *Ctx) int { return c.AdoptPassesKnown(alt, nil) }
 // AdoptPassesKnown is AdoptPasses where a failing obligation of the other run
 // that is a recorded known finding (and fails under the same key here as well)
 // does not count as an open obligation of its rule.
-func (c *Ctx) AdoptPassesKnown(alt *Ctx, known *KnownFile) int {
+func (c *Ctx) AdoptPassesKnown(alt *Ctx, known *KnownFile, final ...bool) int {
+	isFinal := len(final) == 1 && final[0]
 	isKnown := map[string]bool{}
 	if known != nil {
 		mine := map[string]bool{}
@@ -132,8 +136,47 @@ func (c *Ctx) AdoptPassesKnown(alt *Ctx, known *KnownFile) int {
 	for _, o := range c.Obs {
 		have[o.FullKey()] = true
 	}
+	// the other program is fully decided when nothing on it is undecided: what is
+	// open there are violations, which are taken over below
+	altUndecided := 0
+	passHere := map[string]bool{}
 	for _, o := range c.Obs {
 		if o.st == Pass {
+			passHere[o.FullKey()] = true
+		}
+	}
+	altUndecidedIn := map[string]int{}
+	for _, o := range alt.Obs {
+		if o.st == Undecided && !passHere[o.FullKey()] {
+			altUndecided++ // (what this run has decided itself does not count)
+			altUndecidedIn[o.Rule]++
+		}
+	}
+	// a rule that is stuck here on a key the other program does not have, while the
+	// other program decides that rule completely and finds violations: the violations
+	// are taken over (the stuck obligation itself stays as it is)
+	ruleImport := map[string]bool{}
+	if isFinal {
+		for _, o := range c.Obs {
+			if o.st != Undecided || o.imported || o.Rule == "anchor" || o.Rule == "panic" {
+				continue
+			}
+			if _, has := byKey[o.FullKey()]; has {
+				continue
+			}
+			r := o.Rule
+			if r == "instances" {
+				r = o.Key
+			}
+			if seen[r] > 0 && altUndecidedIn[r] == 0 && open[r] > 0 {
+				ruleImport[r] = true
+			}
+		}
+	}
+	fullyDecided := altUndecided == 0
+	importFails := false
+	for _, o := range c.Obs {
+		if o.st == Pass || o.imported {
 			continue
 		}
 		o2, ok := byKey[o.FullKey()]
@@ -141,10 +184,16 @@ func (c *Ctx) AdoptPassesKnown(alt *Ctx, known *KnownFile) int {
 		switch {
 		case ok && o2.st == Pass:
 			o.Detail = "discharged on the equivalent program obtained by expanding the new helper functions in place: " + o2.Detail + " [on the unexpanded program: " + o.Detail + "]"
-		case !ok && o.Rule == "instances" && open["instances"] == 0 && open[o.Key] == 0 && seen[o.Key] > 0:
+		case !ok && o.Rule == "instances" && open["instances"] == 0 && (open[o.Key] == 0 || fullyDecided) && seen[o.Key] > 0:
+			if open[o.Key] > 0 {
+				importFails = true
+			}
 			// the instance count of rule o.Key is met on the expanded program (Expect records nothing then)
 			o.Detail = "on the equivalent program obtained by expanding the new helper functions in place rule " + o.Key + " matches the expected number of sites and leaves nothing open [on the unexpanded program: " + o.Detail + "]"
-		case !ok && open[o.Rule] == 0 && openTotal == 0 && seen[o.Rule] > 0 && o.Rule != "anchor" && o.Rule != "panic" && o.Rule != "instances":
+		case !ok && (open[o.Rule] == 0 && openTotal == 0 || fullyDecided) && seen[o.Rule] > 0 && o.Rule != "anchor" && o.Rule != "panic" && o.Rule != "instances":
+			if openTotal > 0 {
+				importFails = true // the other program's violations come with this discharge
+			}
 			// (nothing at all is open on the other program: a recognition step that
 			// failed there, under whatever rule, could be the reason why the key does
 			// not arise)
@@ -156,7 +205,10 @@ func (c *Ctx) AdoptPassesKnown(alt *Ctx, known *KnownFile) int {
 		o.Status = Pass.String()
 		o.Witness = nil
 		n++
-		if wasUndecided {
+		_ = wasUndecided
+		{
+			// (a violation reported here that the other program overturns cut the rule
+			// short in the same way as an undecided step)
 			early[o.Rule] = true
 			if o.Rule == "instances" {
 				early[o.Key] = true
@@ -174,10 +226,14 @@ func (c *Ctx) AdoptPassesKnown(alt *Ctx, known *KnownFile) int {
 	for _, o2 := range alt.Obs {
 		// rules that stopped early here, and - when something was adopted at all -
 		// rules that never got to run here because the rule set returned before them
-		if !(early[o2.Rule] || n > 0 && !ran[o2.Rule]) || have[o2.FullKey()] || o2.st == Pass {
+		// (the fully normalised program that discharged something here is relied on: what
+		// it complains about under keys this run never produced comes with the discharge,
+		// whichever rule it is - a rule may have run here only in part)
+		if !(early[o2.Rule] || n > 0 && !ran[o2.Rule] || importFails && o2.st == Fail || isFinal && n > 0 || ruleImport[o2.Rule] && o2.st == Fail) || have[o2.FullKey()] || o2.st == Pass {
 			continue
 		}
 		cp := *o2
+		cp.imported = true
 		cp.Detail = o2.Detail + " [found on the equivalent program obtained by expanding the new helper functions in place; the rule stopped early on the tree as written]"
 		c.Obs = append(c.Obs, &cp)
 		have[cp.FullKey()] = true
